@@ -126,6 +126,11 @@ def eval_twophase(case):
         except Exception as e:  # noqa: BLE001
             viol.append(V("twophase/raises", f"Sw={sw} <= S_wc={s_wc}: {type(e).__name__}: {e}", case=case))
             continue
+        # history: edit the returned table in place, call again with equal arguments - must be fresh
+        df2 = relative_permeabilities_twophase(prm, sw)
+        df2.iloc[:, :] = 100.0
+        with np.errstate(all="ignore"):
+            df = relative_permeabilities_twophase(prm, sw)
         tot = np.asarray(df["So"] + df["Sw"] + df["Sg"], dtype=float)
         if not np.allclose(tot, 1.0, rtol=0, atol=1e-12):
             viol.append(V("twophase/sum", f"two-phase saturations sum to {tot.min()!r}..{tot.max()!r}", case=case))
